@@ -24,6 +24,10 @@ import (
 const (
 	FEIO     = "eio"     // the operation fails with EIO (not performed; Close is performed but reports EIO)
 	FShort   = "short"   // a Read/ReadAt returns fewer bytes than asked (>=1), no error
+	// FShortQuiet: a positional read of at least one sector returns fewer bytes than asked and *no* error —
+	// outside io.ReaderAt's contract, but what file systems behind afero adapters (network, archive,
+	// overlay back ends) do; smaller positional reads (format probes) are left alone
+	FShortQuiet = "short-quiet"
 	FDelay   = "delay"   // sleep DelayMs before performing
 	FYield   = "yield"   // runtime.Gosched() before performing
 	FENOENT  = "enoent"  // fails with ENOENT
@@ -390,6 +394,10 @@ func (f *File) ReadAt(p []byte, off int64) (int, error) {
 	flt, _ := f.s.op("readat", f.name)
 	if e := faultErr(flt); e != nil {
 		return 0, &os.PathError{Op: "read", Path: f.name, Err: e}
+	}
+	if flt != nil && flt.Kind == FShortQuiet && len(p) >= 2048 {
+		k := min(max(flt.K, 1), len(p)-1)
+		return f.File.ReadAt(p[:k], off)
 	}
 	// io.ReaderAt must return a non-nil error when n < len(p): the legal short ReadAt is the one of a
 	// file that has become shorter — k bytes and io.EOF, as the OS reports it
